@@ -77,6 +77,17 @@ def run_case(case):
     summary = {k: case[k] for k in ("n", "dw", "al", "attach")}
     summary["stim"] = case["stim_seed"]
     subs = {"evmon": dut}
+    # a two-level interrupt tree: the monitor's outgoing source is one event of an outer (SoC-level) monitor
+    outer = None
+    if rng.random() < 0.35:
+        omap = event.EventMap()
+        other_src = event.Source(trigger="level", path=("other",))
+        for s_ in ([dut.src, other_src] if rng.random() < 0.5 else [other_src, dut.src]):
+            omap.add(s_)
+        outer = event.Monitor(omap, trigger="level")
+        subs["outer"] = outer
+        obit = omap.index(dut.src)
+        mon.count("two_level_interrupt_trees")
     extra = None
     base = 0
     if case["attach"] == "direct":
@@ -135,7 +146,8 @@ def run_case(case):
         return bits(rng, n) if n else 0
 
     drv = CsrDriver(rng, regs, aw, dw, data_hook=data_hook)
-    st = {"E": 0, "P": 0, "prev_i": [0] * n, "cleared": False, "beat": False, "changed_read": False}
+    st = {"E": 0, "P": 0, "prev_i": [0] * n, "cleared": False, "beat": False, "changed_read": False,
+          "oP": 0, "oprev": 0}
     mask = (1 << n) - 1
     burst = {"i": 0}
 
@@ -169,6 +181,19 @@ def run_case(case):
             if kind != "unknown":
                 mon.eq("read_data", got, v, f"bus.r_data ({kind}) with enable={st['E']:#x} pending={st['P']:#x}")
             mon.eq("src_i", ctx.get(dut.src.i), int((st["E"] & st["P"]) != 0), "src.i vs any(enable & pending)")
+            if outer is not None:
+                # the outer monitor: bit `obit` follows the inner monitor's outgoing line in its trigger mode
+                line = int((st["E"] & st["P"]) != 0)
+                otrg = {"level": line, "rise": (1 - st["oprev"]) & line, "fall": st["oprev"] & (1 - line)}[case["mon_trigger"]]
+                oclear = bits(rng, 2) if rng.random() < 0.5 else 0
+                ctx.set(outer.clear, oclear)
+                ctx.set(outer.enable, bits(rng, 2))
+                ctx.set(other_src.i, 0)
+                mon.eq("outer_trg", ctx.get(dut.src.trg), otrg, "trg of the monitor's outgoing source, seen by the outer monitor")
+                mon.eq("outer_pending", (ctx.get(outer.pending) >> obit) & 1, st["oP"],
+                       "pending bit of the outer monitor for the inner monitor's outgoing source")
+                st["oP"] = (st["oP"] & ~((oclear >> obit) & 1)) | otrg
+                st["oprev"] = line
             # effects of register writes that fire in this cycle
             trg = 0
             for k in range(n):
@@ -198,6 +223,7 @@ def run_case(case):
             model.advance(inp, vals)
             if c in resets:
                 st["E"], st["P"], st["prev_i"] = 0, 0, [0] * n
+                st["oP"], st["oprev"] = 0, 0
                 model.reset()
                 mon.count("warm_resets")
             await ctx.tick()
